@@ -38,6 +38,16 @@ theorem C02_final (W N : Nat) (evs : List Ev) (s : State) (h : run false (init W
   rw [ht0, hs0] at hc
   omega
 
+/-- **what "complete" has to mean (D22).** `C02_final` speaks about *terminated* states: ticker idle, every worker exited
+**and the stopper done**. The code's notion of completion is the manager's wait group. Since `fix:` 752177e the goroutine
+that stops the pool is counted in it (fact `fact_pool_Start`: `runningWorkers.Add(1)` … `defer … Done()` around `stop()`),
+so "the wait group is empty" is `terminated`. Before, it only meant "every worker exited" — and that is not enough: -/
+theorem workers_exited_is_not_complete :
+    ∃ (evs : List Ev) (s : State), run false (init 1 0) evs = some s ∧ s.tpc = .idle ∧ s.exited = workersTotal s ∧
+      s.requested ≠ s.started + s.dropped + s.refused + s.discarded :=
+  ⟨[.tickCheck 3, .tickLock, .tickSwap, .tickBroadcast, .tickUnlock, .tickReport,
+    .wToTest, .wTestEmpty, .wTake, .wNext, .envCancel, .stopSetFlag, .wFinish, .wExit], _, rfl, by decide⟩
+
 /-- C02 (dropped only if pending): the dropped count only grows by the positive old value a tick's
 or the shutdown's swap returned, i.e. by requests that were still pending when they were superseded
 or triggering stopped — and never once the limit has been seen reached. -/
